@@ -161,6 +161,10 @@ def geometric_knn_entropy(X, Xdist, k=1):
            entropy and mutual information. Chaos 28, 033113 (2018).
     """
     N, d = X.shape
+    # Work on the centred sample: the estimate is translation invariant, but local
+    # means of un-centred data carry rounding noise proportional to the offset,
+    # which turns exactly-zero singular values into spurious non-zero ones.
+    X = X - np.mean(X, axis=0)
     Xknn = np.zeros((N, k), dtype=int)
 
     for i in range(N):
